@@ -3,6 +3,7 @@ package sim
 import (
 	"fmt"
 	"regexp"
+	"slices"
 	"sort"
 	"time"
 
@@ -638,7 +639,7 @@ func judgeAPI(m *Model, st *Stats) []pbt.Violation {
 				continue
 			}
 			// mutedBy: the names the time-interval stages recorded at the group's last flush
-			if m.sc.Opts.StartDelay == 0 && len(m.Restarts) == 0 && len(m.Reloads) == 0 {
+			if m.sc.Opts.EffDelay() == 0 && len(m.Restarts) == 0 && len(m.Reloads) == 0 {
 				for _, g := range smp.Groups {
 					if len(g.Alerts) == 0 {
 						continue
@@ -682,8 +683,10 @@ func judgeAPI(m *Model, st *Stats) []pbt.Violation {
 						if !activeOK {
 							wantActive = append([]string(nil), rt.Active...)
 						}
+						// (a name is listed once per matching entry of its definition: compared as a set)
 						got := append([]string(nil), g.Alerts[0].MutedBy...)
 						sort.Strings(got)
+						got = slices.Compact(got)
 						sort.Strings(wantMute)
 						sort.Strings(wantActive)
 						union := append(append([]string(nil), wantMute...), wantActive...)
@@ -743,7 +746,7 @@ func (m *Model) started(t time.Time) bool {
 			start = r.At
 		}
 	}
-	return !t.Before(start.Add(time.Duration(m.sc.Opts.StartDelay) * time.Second))
+	return !t.Before(start.Add(time.Duration(m.sc.Opts.EffDelay()) * time.Second))
 }
 
 // longInFlight: some delivery attempt of the group lasts longer than the slow slack and overlaps [t1, t2]: the
